@@ -6,6 +6,8 @@ import (
 	"unsafe"
 
 	"github.com/fullstorydev/grpchan/inprocgrpc"
+	"google.golang.org/grpc/encoding"
+	grpcproto "google.golang.org/grpc/encoding/proto"
 
 	"verif/mc"
 )
@@ -51,4 +53,33 @@ func hooksFor(sc *Scenario) *hooks {
 		return &hooks{cloner: inner}
 	}
 	return nil
+}
+
+// trackCodec wraps the registered "proto" codec (the application may replace it: encoding.RegisterCodec,
+// see httpgrpc/protocol_versions.go): encoding reads the application's message, decoding writes into the
+// application's destination; with scenario option "codec" both are tracked accesses (scheduling points).
+// The point is the decode: between taking a frame and the next synchronisation operation the library
+// runs the (arbitrarily slow) decoder, during which everything else may happen.
+type trackCodec struct{ inner encoding.Codec }
+
+var codecTracking bool
+
+func (c trackCodec) Name() string { return c.inner.Name() }
+func (c trackCodec) Marshal(v interface{}) ([]byte, error) {
+	if _, ok := v.(*Msg); ok && codecTracking {
+		access(v, false)
+	}
+	return c.inner.Marshal(v)
+}
+func (c trackCodec) Unmarshal(b []byte, v interface{}) error {
+	if _, ok := v.(*Msg); ok && codecTracking {
+		access(v, true)
+	}
+	return c.inner.Unmarshal(b, v)
+}
+
+func init() {
+	if inner := encoding.GetCodec(grpcproto.Name); inner != nil {
+		encoding.RegisterCodec(trackCodec{inner})
+	}
 }
